@@ -172,6 +172,12 @@ def run(tier, seed, drv, scenarios=None):
         impl = st.check(sc, nontrivial=nontrivial, judge_extra=[('C07till', dsl.t2s(t) + ' user-errors')] if t is not None else None,
                         refine=lambda msg, _impl, _model, t=t: {'till': t is not None})
         traces.append(msuite.obs_line(impl))
+    if scenarios is None:
+        # the same programs under `python -O` (judged only): what run() promises does not hang on assertions. Programs that
+        # trip a usage assertion in default mode are left out (without the assertion they go on into undefined territory)
+        ok = [sc for sc, tr in zip(scs, traces) if 'crash 9' not in tr and ',9' not in tr.split('|')[1] and ':caught:9' not in tr
+              and ':tfin:3,9' not in tr and till_of(sc) is None]
+        msuite.judge_in_config(st, ok[:150 if tier == 'quick' else 1000], 'O', {}, ['-O'], params=start_of)
     if tier == 'thorough' and scenarios is None:
         # real threads: each simulation must behave exactly as when it runs alone
         for base in range(0, min(len(scs), 800), 8):
